@@ -1,4 +1,5 @@
 import AM.Model.Syslog
+import AM.Proofs.C12
 /-! # C07 — a record delivered through the pipe is processed as if handed over directly
 
 `framed_eq_direct`: for every PID token without blank, every non-empty blank padding and every
@@ -128,5 +129,65 @@ theorem no_blank_empty_entry (x : Str) (hx : ' ' ∉ x) (hnl : x.getLast? ≠ so
 /-- non-vacuity -/
 example : parse "4321  Failed password for bob from 1.2.3.4 port 22 ssh2\n".toList =
     ("4321".toList, "Failed password for bob from 1.2.3.4 port 22 ssh2".toList) := by decide
+
+/-! ### through the pipe: any chunking of the byte stream
+
+`framed_eq_direct` speaks about one record handed to the callback; `C12.run_eq_expected` says what
+the pipe ingester hands to the callback for any partition of the byte stream into reads. Together:
+a sequence of framed records written to the pipe in ANY pieces is processed exactly as the
+(pid, message) pairs handed over directly, one by one, in order. -/
+
+theorem records_frame (d : Char) (acc body : Str) (h : d ∉ body) :
+    Pipe.records d acc (body ++ [d]) = ([acc ++ body ++ [d]], []) := by
+  induction body generalizing acc with
+  | nil => simp [Pipe.records]
+  | cons b t ih =>
+    have hb : b ≠ d := by intro hh; apply h; simp [hh]
+    have ht : d ∉ t := by intro hh; apply h; simp [hh]
+    simp only [List.cons_append, Pipe.records, hb, if_false]
+    rw [ih (acc ++ [b]) ht]
+    simp
+
+theorem records_of_frames (d : Char) (fs : List Str)
+    (h : ∀ f ∈ fs, ∃ body, f = body ++ [d] ∧ d ∉ body) : Pipe.records d [] fs.flatten = (fs, []) := by
+  induction fs with
+  | nil => simp [Pipe.records]
+  | cons f rest ih =>
+    obtain ⟨body, rfl, hb⟩ := h f List.mem_cons_self
+    have ihr := ih (fun g hg => h g (List.mem_cons_of_mem _ hg))
+    simp only [List.flatten_cons]
+    rw [AM.C12.records_append, records_frame d [] body hb]
+    simp [ihr]
+
+/-- a framed record: PID token, blank padding, message, newline -/
+def frame (r : Str × Str × Str) : Str := r.1 ++ r.2.1 ++ r.2.2 ++ ['\n']
+
+/-- what sshd and rsyslog produce: no blank or newline in the PID token, non-empty blank padding, a
+message without newline that does not start with a blank -/
+def WfRec (r : Str × Str × Str) : Prop :=
+  ' ' ∉ r.1 ∧ '\n' ∉ r.1 ∧ r.2.1 ≠ [] ∧ (∀ c ∈ r.2.1, c = ' ') ∧ '\n' ∉ r.2.2 ∧ r.2.2.head? ≠ some ' '
+
+theorem through_the_pipe (cfg : Sshd.Cfg) (recs : List (Str × Str × Str)) (chunks : List Str)
+    (ok : Bool) (h : Sshd.Handoff) (hwf : ∀ r ∈ recs, WfRec r)
+    (hc : chunks.flatten = (recs.map frame).flatten) :
+    (Pipe.run '\n' none chunks).1.map (fun e => Syslog.process cfg e ok h) =
+      recs.map (fun r => Sshd.process cfg r.1 r.2.2 ok h) := by
+  have hframes : ∀ f ∈ recs.map frame, ∃ body, f = body ++ ['\n'] ∧ '\n' ∉ body := by
+    intro f hf
+    obtain ⟨r, hr, rfl⟩ := List.mem_map.mp hf
+    obtain ⟨_, h2, _, h4, h5, _⟩ := hwf r hr
+    refine ⟨r.1 ++ r.2.1 ++ r.2.2, rfl, ?_⟩
+    intro hm
+    simp only [List.mem_append] at hm
+    rcases hm with (hm | hm) | hm
+    · exact h2 hm
+    · have := h4 _ hm; cases this
+    · exact h5 hm
+  rw [AM.C12.run_eq_expected, hc]
+  simp only [Pipe.expected, records_of_frames '\n' _ hframes, List.map_map]
+  apply List.map_congr_left
+  intro r hr
+  obtain ⟨h1, _, h3, h4, _, h6⟩ := hwf r hr
+  exact framed_eq_direct cfg r.1 r.2.1 r.2.2 ok h h1 h3 h4 h6
 
 end AM.C07
